@@ -185,6 +185,34 @@ func (u *Unit) external(st *State, fr *Frame, in *ssa.Call, fn *ssa.Function, ar
 		}
 	case "encoding/binary":
 		return u.binaryModel(st, fr, in, fn, args)
+	case "github.com/go-i2p/crypto/elg", "github.com/go-i2p/crypto/dsa":
+		// A-CRYPTO: NewElgPublicKey / NewDSAPublicKey accept exactly 256 / 128
+		// bytes whose value passes a range test (uninterpreted), and return a
+		// copy of those bytes
+		if fn.Name() == "NewElgPublicKey" || fn.Name() == "NewDSAPublicKey" {
+			n := int64(256)
+			if fn.Name() == "NewDSAPublicKey" {
+				n = 128
+			}
+			d, ok := args[0].(SliceV)
+			if !ok {
+				return nil, false
+			}
+			u.Assumed["A-CRYPTO: "+fn.Name()+" accepts exactly "+itoa(int(n))+" bytes passing a range test and copies them"]++
+			valid := u.newBool("keyvalid")
+			okc := And(Eq(d.Len, IntLit(n)), valid)
+			r := u.regionOf(st, d.Blk)
+			rC, off := r.C, u.name(d.Off, "ko")
+			arr := ArrV{Arr: u.mkArr(func(j *Term) *Term { return Select(rC, Add(off, j)) }), N: n}
+			errv := IfaceV{Nil: okc, Opq: u.newInt("keyerr")}
+			tt := rt.(*types.Tuple)
+			if pt, isPtr := tt.At(0).Type().Underlying().(*types.Pointer); isPtr {
+				c := u.newCell(pt.Elem(), false, false, "elgkey")
+				st.cells[c.ID] = arr
+				return TupleV{E: []Val{PtrV{Nil: Not(okc), Cell: c, Elem: pt.Elem()}, errv}}, true
+			}
+			return TupleV{E: []Val{arr, errv}}, true
+		}
 	case "bytes":
 		switch fn.Name() {
 		case "Equal":
